@@ -254,7 +254,7 @@ def check_lexicase_exhaustive(h: Harness):
     extra = []
     for n, nc, vals in [(3, 2, 3), (2, 3, 2), (3, 3, 2), (4, 2, 2)]:
         tables = list(itertools.product(range(vals), repeat=n * nc))
-        take = len(tables) if (h.thorough and len(tables) <= 800) else h.n(12, 120)
+        take = len(tables) if (h.thorough and (n, nc) == (3, 2)) else min(len(tables), h.n(12, 100))
         for table in (tables if take == len(tables) else rng.sample(tables, take)):
             extra.append((n, nc, table, list(range(n))))
     for table in itertools.product(range(2), repeat=4):
